@@ -554,6 +554,20 @@ Proof.
   - apply (go_tuples_key_spec e (reverse_flow f) gd gs); [apply flow_ok_reverse; assumption | assumption | assumption].
 Qed.
 
+(* ------------------------------------------------------------------------------------------ *)
+(* magic-number mirrors of kernel enumerations                                                  *)
+(* ------------------------------------------------------------------------------------------ *)
+Lemma magic_numbers_agree_proof : forallb magic_ok magic_uses = true.
+Proof. vm_compute. reflexivity. Qed.
+
+Lemma janitor_state_agrees_proof :
+  forall (fin_seen : bool) (age_ns : N),
+    go_janitor_is_closing (c_state_after fin_seen) = fin_seen
+    /\ go_janitor_deletes (c_state_after fin_seen) age_ns = spec_janitor_deletes fin_seen age_ns.
+Proof.
+  intros [] age; unfold go_janitor_deletes, spec_janitor_deletes, go_janitor_is_closing, c_state_after; split; reflexivity.
+Qed.
+
 Lemma nonvacuous_proof :
   let f := mkflow (IP4 0x01020304) (IP4 0x0a060708) 40000 53 17 in
   flow_ok f /\ same_family f /\ go_repr (G6 (0xffff * 2 ^ 32 + 0x01020304)) (f_src f) /\ go_repr (G4 0x0a060708) (f_dst f)
